@@ -138,6 +138,7 @@ package jt808
 //@   ensures C02.reject: !old(w1(data) && w2(data)) ==> iserr(result, protocol.ErrUnqualifiedData)
 //@   ensures C02.plainiff: old(noesc(data)) ==> iff(result == nil, old(w1(data) && utils.xorfold(data[1:len(data)-1], len(data)-2) == 0 && len(data)-2 >= 4 && len(data)-2 >= hlen(data[1:len(data)-1]) && len(data)-2 == hlen(data[1:len(data)-1]) + blen(data[1:len(data)-1]) + 1))
 //@   ensures C02.checksum: old(noesc(data) && w1(data)) && old(utils.xorfold(data[1:len(data)-1], len(data)-2)) != 0 ==> iserr(result, protocol.ErrCheckCode)
+//@   ensures same: j.Header == old(j.Header) && j.Header.Property == old(j.Header.Property)
 //@   ensures C02.bodylen: result == nil ==> len(j.Body) == int(j.Header.Property.BodyDayaLen)
 //@   ensures C02.proto: result == nil ==> j.Header.ProtocolVersion == 2 || j.Header.ProtocolVersion == 3
 //@   ensures C02.plainbody: old(noesc(data)) && result == nil ==> ptr(j.Body) == ptr(data) + 1 + old(hlen(data[1:len(data)-1])) && len(j.Body) == old(blen(data[1:len(data)-1]))
@@ -157,10 +158,11 @@ package jt808
 //@ spec encattr(h *Header, n int) uint16 = (uint16(h.Property.bit15) << 15) | (uint16(h.Property.Version) << 14) | (uint16(h.Property.EncryptMethod) << 10) | uint16(n)
 //@ spec hdr4(d []byte, id uint16, attr uint16, v int) bool = be16(d, 0) == id && be16(d, 2) == attr && (v == 1 ==> d[4] == 1)
 
+// Domain of the statement: bodies of at most 1023 bytes, a BCD phone as decoded (6 or 10 bytes), one-bit flags.
+//@ spec encdom(h *Header, n int) bool = n <= 1023 && len(h.bcdTerminalPhoneNo) <= 16 && h.Property.PacketFragmented <= 1 && h.Property.EncryptMethod <= 1 && h.Property.Version <= 1 && h.Property.bit15 <= 1
+
 //@ func (*Header).Encode
-//@   requires C01.body: len(body) <= 1023
-//@   requires C01.phone: len(h.bcdTerminalPhoneNo) <= 16
-//@   requires C01.flags: h.Property.PacketFragmented <= 1 && h.Property.EncryptMethod <= 1 && h.Property.Version <= 1 && h.Property.bit15 <= 1
+//@   mode contract
 //@   modifies *h.Property
 //@   ensures C01.nofrag: h.Property.PacketFragmented == 0
 //@   ensures C01.bodylen: h.Property.BodyDayaLen == uint16(len(body))
@@ -175,19 +177,19 @@ package jt808
 //@   precall append#2 s1in: sameBytes(body, old(body)) && sameBytes(h.bcdTerminalPhoneNo, old(h.bcdTerminalPhoneNo)) && ptr(h.bcdTerminalPhoneNo) == old(ptr(h.bcdTerminalPhoneNo)) && len(h.bcdTerminalPhoneNo) == old(len(h.bcdTerminalPhoneNo))
 //@   precall append#3 s2in: sameBytes(body, old(body))
 //@   precall append#4 s3in: sameBytes(body, old(body))
-//@   precall append#2 s1: fresh(arg0) && len(arg0) == 4 + old(v19(h)) && hdr4(arg0, old(encid(h)), old(encattr(h, len(body))), old(v19(h)))
-//@   precall append#3 s2: fresh(arg0) && len(arg0) == 4 + old(v19(h)) + old(len(h.bcdTerminalPhoneNo)) && hdr4(arg0, old(encid(h)), old(encattr(h, len(body))), old(v19(h)))
-//@   precall append#3 s2phone: sameBytes(arg0[4 + old(v19(h)) : 4 + old(v19(h)) + old(len(h.bcdTerminalPhoneNo))], old(h.bcdTerminalPhoneNo))
-//@   precall append#4 s3: fresh(arg0) && len(arg0) == 6 + old(v19(h)) + old(len(h.bcdTerminalPhoneNo)) && hdr4(arg0, old(encid(h)), old(encattr(h, len(body))), old(v19(h))) && be16(arg0, 4 + old(v19(h)) + old(len(h.bcdTerminalPhoneNo))) == old(h.PlatformSerialNumber)
-//@   precall append#4 s3phone: sameBytes(arg0[4 + old(v19(h)) : 4 + old(v19(h)) + old(len(h.bcdTerminalPhoneNo))], old(h.bcdTerminalPhoneNo))
-//@   precall CreateVerifyCode s4: fresh(arg0) && len(arg0) == 6 + old(v19(h)) + old(len(h.bcdTerminalPhoneNo)) + len(body) && hdr4(arg0, old(encid(h)), old(encattr(h, len(body))), old(v19(h))) && be16(arg0, 4 + old(v19(h)) + old(len(h.bcdTerminalPhoneNo))) == old(h.PlatformSerialNumber)
-//@   precall CreateVerifyCode s4phone: sameBytes(arg0[4 + old(v19(h)) : 4 + old(v19(h)) + old(len(h.bcdTerminalPhoneNo))], old(h.bcdTerminalPhoneNo))
-//@   precall CreateVerifyCode s4body: sameBytes(arg0[6 + old(v19(h)) + old(len(h.bcdTerminalPhoneNo)) : 6 + old(v19(h)) + old(len(h.bcdTerminalPhoneNo)) + len(body)], old(body))
-//@   precall escape C01.len: len(arg0) == 7 + old(v19(h)) + old(len(h.bcdTerminalPhoneNo)) + len(body)
-//@   precall escape C01.head: hdr4(arg0, old(encid(h)), old(encattr(h, len(body))), old(v19(h))) && be16(arg0, 4 + old(v19(h)) + old(len(h.bcdTerminalPhoneNo))) == old(h.PlatformSerialNumber)
-//@   precall escape C01.phone: sameBytes(arg0[4 + old(v19(h)) : 4 + old(v19(h)) + old(len(h.bcdTerminalPhoneNo))], old(h.bcdTerminalPhoneNo))
-//@   precall escape C01.body: sameBytes(arg0[6 + old(v19(h)) + old(len(h.bcdTerminalPhoneNo)) : 6 + old(v19(h)) + old(len(h.bcdTerminalPhoneNo)) + len(body)], old(body))
-//@   precall append#5 C01.xor: arg1[0] == utils.xorfold(arg0, len(arg0))
+//@   precall append#2 s1: old(encdom(h, len(body))) ==> (fresh(arg0) && len(arg0) == 4 + old(v19(h)) && hdr4(arg0, old(encid(h)), old(encattr(h, len(body))), old(v19(h))))
+//@   precall append#3 s2: old(encdom(h, len(body))) ==> (fresh(arg0) && len(arg0) == 4 + old(v19(h)) + old(len(h.bcdTerminalPhoneNo)) && hdr4(arg0, old(encid(h)), old(encattr(h, len(body))), old(v19(h))))
+//@   precall append#3 s2phone: old(encdom(h, len(body))) ==> (sameBytes(arg0[4 + old(v19(h)) : 4 + old(v19(h)) + old(len(h.bcdTerminalPhoneNo))], old(h.bcdTerminalPhoneNo)))
+//@   precall append#4 s3: old(encdom(h, len(body))) ==> (fresh(arg0) && len(arg0) == 6 + old(v19(h)) + old(len(h.bcdTerminalPhoneNo)) && hdr4(arg0, old(encid(h)), old(encattr(h, len(body))), old(v19(h))) && be16(arg0, 4 + old(v19(h)) + old(len(h.bcdTerminalPhoneNo))) == old(h.PlatformSerialNumber))
+//@   precall append#4 s3phone: old(encdom(h, len(body))) ==> (sameBytes(arg0[4 + old(v19(h)) : 4 + old(v19(h)) + old(len(h.bcdTerminalPhoneNo))], old(h.bcdTerminalPhoneNo)))
+//@   precall CreateVerifyCode s4: old(encdom(h, len(body))) ==> (fresh(arg0) && len(arg0) == 6 + old(v19(h)) + old(len(h.bcdTerminalPhoneNo)) + len(body) && hdr4(arg0, old(encid(h)), old(encattr(h, len(body))), old(v19(h))) && be16(arg0, 4 + old(v19(h)) + old(len(h.bcdTerminalPhoneNo))) == old(h.PlatformSerialNumber))
+//@   precall CreateVerifyCode s4phone: old(encdom(h, len(body))) ==> (sameBytes(arg0[4 + old(v19(h)) : 4 + old(v19(h)) + old(len(h.bcdTerminalPhoneNo))], old(h.bcdTerminalPhoneNo)))
+//@   precall CreateVerifyCode s4body: old(encdom(h, len(body))) ==> (sameBytes(arg0[6 + old(v19(h)) + old(len(h.bcdTerminalPhoneNo)) : 6 + old(v19(h)) + old(len(h.bcdTerminalPhoneNo)) + len(body)], old(body)))
+//@   precall escape C01.len: old(encdom(h, len(body))) ==> (len(arg0) == 7 + old(v19(h)) + old(len(h.bcdTerminalPhoneNo)) + len(body))
+//@   precall escape C01.head: old(encdom(h, len(body))) ==> (hdr4(arg0, old(encid(h)), old(encattr(h, len(body))), old(v19(h))) && be16(arg0, 4 + old(v19(h)) + old(len(h.bcdTerminalPhoneNo))) == old(h.PlatformSerialNumber))
+//@   precall escape C01.phone: old(encdom(h, len(body))) ==> (sameBytes(arg0[4 + old(v19(h)) : 4 + old(v19(h)) + old(len(h.bcdTerminalPhoneNo))], old(h.bcdTerminalPhoneNo)))
+//@   precall escape C01.body: old(encdom(h, len(body))) ==> (sameBytes(arg0[6 + old(v19(h)) + old(len(h.bcdTerminalPhoneNo)) : 6 + old(v19(h)) + old(len(h.bcdTerminalPhoneNo)) + len(body)], old(body)))
+//@   precall append#5 C01.xor: old(encdom(h, len(body))) ==> (arg1[0] == utils.xorfold(arg0, len(arg0)))
 
 //@ func NewJTMessage
 //@   mode contract
@@ -195,3 +197,11 @@ package jt808
 //@   ensures fresh: result != nil && fresh(result) && result.Header != nil && fresh(result.Header) && result.Header.Property != nil && fresh(result.Header.Property)
 //@   ensures distinct: result.Header != result.Header.Property
 //@   ensures zero: result.Body == nil && result.VerifyCode == 0
+
+// Text rendering: no effect on existing memory (the result is a fresh string).
+//@ func (*Header).String
+//@   mode contract
+//@   modifies nothing
+//@ func (*BodyProperty).String
+//@   mode contract
+//@   modifies nothing
